@@ -543,10 +543,16 @@ class Check:
         log('[%s] %s: cases=%d evals=%d cov=%d viol=%d restarts=%d wall=%.1fs' % (self.prop, label, r.cases, r.evals, len(r.cov), len(r.violations), r.restarts, r.wall))
         return r
 
-    def coverage(self, exe_cov, cases, files, **kw):
+    def coverage(self, exe_cov, cases, files=None, **kw):
         """Thorough tier only: gcov line coverage of the anchored files under this workload (information, not a verdict)."""
         if self.tier != 'thorough':
             return
+        if files is None:
+            files = []
+            for l in open(os.path.join(ROOT, 'properties.jsonl')):
+                d = json.loads(l)
+                if d['id'] == self.prop:
+                    files = [f for f in d['anchors']['files'] if f.endswith('.c')]
         try:
             self.cov['line_coverage_of_anchored_files'] = line_coverage(exe_cov, self.prop, self.seed, cases, files, **kw)
         except Exception as e:       # coverage is supplementary: never turns a verdict
